@@ -34,3 +34,13 @@ func (x verifW) Write(p []byte) (int, error) {
 }
 
 func verifWriter(w io.Writer, label string) io.Writer { return verifW{w, label} }
+
+// verifEnter/verifActive: number of instrumented UnixVolume methods currently running.
+var verifActiveN int32
+
+func verifEnter(method string) func() {
+	atomic.AddInt32(&verifActiveN, 1)
+	return func() { atomic.AddInt32(&verifActiveN, -1) }
+}
+
+func verifActive() int { return int(atomic.LoadInt32(&verifActiveN)) }
